@@ -591,6 +591,11 @@ func pan3Site(p *Program, r *RuleResult, s boundSite, rg map[*ssa.Global]string)
 		var hyp []string
 		for i, rt := range roots {
 			an.pin[rt] = classes[i][assign[i]]
+			// load forwarding: other loads of the same location (go/ssa has no
+			// CSE) denote the same value when the location is not stored to
+			for _, alias := range sameLoads(fn, rt) {
+				an.pin[alias] = classes[i][assign[i]]
+			}
 			hyp = append(hyp, classes[i][assign[i]].String())
 		}
 		res := an.analyze(fn, nil)
@@ -980,3 +985,33 @@ func leqProved(s boundSite, lo, hi ssa.Value) bool {
 }
 
 var _ = sort.Strings
+
+// sameLoads: other loads in fn of the location root loads from, provided the
+// location is never stored to in fn.
+func sameLoads(fn *ssa.Function, root ssa.Value) []ssa.Value {
+	ld, ok := root.(*ssa.UnOp)
+	if !ok || ld.Op != token.MUL {
+		return nil
+	}
+	switch ld.X.(type) {
+	case *ssa.FieldAddr, *ssa.IndexAddr:
+	default:
+		return nil
+	}
+	var out []ssa.Value
+	for _, b := range fn.Blocks {
+		for _, ins := range b.Instrs {
+			switch x := ins.(type) {
+			case *ssa.Store:
+				if sameAccess(x.Addr, ld.X) {
+					return nil
+				}
+			case *ssa.UnOp:
+				if x != ld && x.Op == token.MUL && sameAccess(x.X, ld.X) {
+					out = append(out, x)
+				}
+			}
+		}
+	}
+	return out
+}
